@@ -1278,6 +1278,8 @@ func (mgr *Manager) UpdateTag(name string, operation UpdateTagOperation) error {
 				}
 				tag = newTag
 				mgr.tags[name] = tag
+				// a running tagging job might be evaluating a tag that references this one
+				mgr.resetStreamsDuringTaggingJob.Or(tag.Uncertain)
 				mgr.inheritTagUncertainty()
 				mgr.startTaggingJobIfNeeded()
 				mgr.startConverterJobIfNeeded()
@@ -1382,6 +1384,8 @@ func (mgr *Manager) UpdateTag(name string, operation UpdateTagOperation) error {
 				}
 				tag = &newTag
 				mgr.tags[name] = tag
+				// a running tagging job might be evaluating a tag that references this one
+				mgr.resetStreamsDuringTaggingJob.Or(tag.Uncertain)
 				mgr.inheritTagUncertainty()
 				mgr.tags[name].Uncertain = bitmask.LongBitmask{}
 				mgr.startTaggingJobIfNeeded()
